@@ -1288,3 +1288,45 @@ func init() {
 		Doc: "'no such module' is said only about the search: every IsException(FileNotFoundError, e) in ImportModuleLevelObject classifies a value last assigned from a call of ResolveAndCompile — never the result of something that also runs the module's code, whose own FileNotFoundError must reach the importer unchanged",
 		Run: runNotFoundOnlyFromSearch})
 }
+
+// ---- C01.R10, C04.R10: the error-flow rules of C02, read for two mechanisms of other properties ----
+//
+// C02.R4/R8 decide, for every call in the VM and in the object layer, that the callee's error is handed on. Two of those
+// functions carry clauses of other properties: `x in y` must raise what iterating y raised (C01: the result is the value
+// — or the exception — Python defines), and a call f(*x, **y) must raise what expanding x raised (C04: TypeError
+// precisely when Python raises it). The obligations of those functions are reported under these properties as well.
+func filteredRule(inner func(c *Ctx, r *Rep), innerID string, match func(key string) bool, what string) func(c *Ctx, r *Rep) {
+	return func(c *Ctx, r *Rep) {
+		tmp := &Rep{rule: &Rule{ID: innerID}, c: c, config: r.config}
+		inner(c, tmp)
+		n := 0
+		for _, o := range tmp.Obs {
+			k := strings.TrimPrefix(o.Key, innerID+"|")
+			if !match(k) {
+				continue
+			}
+			n++
+			cp := *o
+			cp.Rule = r.rule.ID
+			cp.Key = r.rule.ID + "|" + k
+			r.Obs = append(r.Obs, &cp)
+		}
+		for fn := range tmp.Funcs {
+			if match("|" + fn + "|") {
+				r.analysed(fn)
+			}
+		}
+		if n == 0 {
+			r.undecided("errors|anchor", token.NoPos, "%s: no call site of it is visible to the error-flow analysis any more", what)
+		}
+	}
+}
+
+func init() {
+	register(&Rule{ID: "C01.R10", Prop: "C01", Floor: 1,
+		Doc: "`x in y` raises what iterating y raised: the error of every call made in py.SequenceContains is handed on unchanged (the obligations of C02.R8 for that function — edge-sensitive error-value flow on go/ssa); replacing it (by a TypeError \"not iterable\", say) makes a generator's ValueError look like a type error of the operand",
+		Run: filteredRule(runErrorDiscipline, "C02.R8", func(k string) bool { return strings.Contains(k, "|py.SequenceContains|") }, "py.SequenceContains")})
+	register(&Rule{ID: "C04.R10", Prop: "C04", Floor: 1,
+		Doc: "a call f(*x, **y) raises what expanding its operands raised: the error of every call made in (*vm.Vm).Call is handed on unchanged (the obligations of C02.R4 for that function); TypeError is raised precisely when Python raises it, not in place of an exception from the iterable",
+		Run: filteredRule(runC02R4, "C02.R4", func(k string) bool { return strings.Contains(k, "|(*vm.Vm).Call|") }, "(*vm.Vm).Call")})
+}
